@@ -402,6 +402,10 @@ def main(argv=None):
         cur.update({l: ("proved" if g["proved"] == g["instances"] else "open") for l, g in ob.items()})
         d[prop] = cur
         json.dump(d, open(p, "w"), indent=1, sort_keys=True)
+    if n_ob == 0 and not bounded and code == 0:
+        # vacuity guard: a run that generated no obligation at all proves nothing (empty --only filter, empty contract module)
+        print(f"CHECKER-ERROR {prop}: no obligation was generated")
+        code = 3
     print(f"{prop} tier={a.tier}: obligations={n_ob} discharged={n_dis} labels={n_labels_proved}/{n_labels} units={len(outs)} "
           f"bounded={len(bounded)} known={len(seen_kf)} violations={len(violations) + len(b_viol)} undecided={len(undecided) + len(missing)} "
           f"errors={len(checker_errors)} wall={wall:.1f}s exit={code}")
